@@ -24,27 +24,95 @@ from vlib import cZ, cbool, clist, cpair
 
 SRC = ["src/pynguin/instrumentation/tracer.py", "src/pynguin/testcase/execution.py"]
 PRED_KINDS = ["bool", "eq", "in", "excmatch", "inp"]
+TRACK_KINDS = ["prop", "getattr", "desc", "generic", "memory"]
 
 
 # ---------------------------------------------------------------------------------------------
-# K1: structure of the brackets
+# K1: structure of the brackets, and of every other place where tracing is switched
+SCAN = ["src/pynguin/instrumentation/tracer.py", "src/pynguin/testcase/execution.py",
+        "src/pynguin/testcase/execution_observers.py"]
+# functions that ARE the switch (primitives, delegates, (de)serialisation): not brackets
+PRIMITIVES = {"enable", "disable", "state", "__init__", "__setstate__"}
+
+
+def _is_switch(node) -> bool:
+    """a call x.enable() / x.disable(), or an assignment to <...>.enabled"""
+    if isinstance(node, ast.Call) and isinstance(node.func, ast.Attribute) and node.func.attr in ("enable", "disable"):
+        # the receiver is a tracer: `self` (inside the tracer classes) or an expression naming one
+        # (`self._tracer`, `executor.subject_properties.instrumentation_tracer`); not e.g. `logging.disable(..)`
+        recv = ast.unparse(node.func.value)
+        return recv == "self" or "tracer" in recv.lower()
+    if isinstance(node, (ast.Assign, ast.AugAssign, ast.AnnAssign)):
+        targets = node.targets if isinstance(node, ast.Assign) else [node.target]
+        return any(isinstance(t, ast.Attribute) and t.attr == "enabled" for t in targets)
+    return False
+
+
+def _has_switch(stmts) -> bool:
+    return any(_is_switch(n) for st in stmts for n in ast.walk(st))
+
+
+def unbracketed_switches(fn: ast.FunctionDef):
+    """Switch operations of `fn` that are neither inside a `finally` clause nor (possibly nested in
+    an if) directly followed by a `try` whose `finally` clause switches back."""
+    bad = []
+
+    def visit(stmts, protected):
+        for i, st in enumerate(stmts):
+            nxt = stmts[i + 1] if i + 1 < len(stmts) else None
+            prot = protected or (isinstance(nxt, ast.Try) and _has_switch(nxt.finalbody))
+            if isinstance(st, (ast.FunctionDef, ast.AsyncFunctionDef, ast.ClassDef)):
+                continue
+            if isinstance(st, ast.Try):
+                visit(st.body, False)
+                for h in st.handlers:
+                    visit(h.body, False)
+                visit(st.orelse, False)
+                visit(st.finalbody, True)
+                continue
+            blocks = [getattr(st, f) for f in ("body", "orelse") if isinstance(getattr(st, f, None), list)]
+            if blocks:
+                # the header expression of a compound statement
+                for f in ("test", "iter", "items"):
+                    h = getattr(st, f, None)
+                    for n in ([h] if isinstance(h, ast.AST) else h or []):
+                        if any(_is_switch(x) for x in ast.walk(n)) and not prot:
+                            bad.append(st.lineno)
+                for blk in blocks:
+                    visit(blk, prot)
+            elif any(_is_switch(n) for n in ast.walk(st)) and not prot:
+                bad.append(st.lineno)
+
+    visit(fn.body, False)
+    return bad
+
+
 def read_brackets(repo):
-    """-> {"temporarily_disable": bool, "temporarily_enable": bool}: the statement after the last
-    `yield` is executed in a `finally` clause."""
-    tree = ast.parse((repo / SRC[0]).read_text())
-    res = {}
-    for node in ast.walk(tree):
-        if isinstance(node, ast.FunctionDef) and node.name in ("temporarily_disable", "temporarily_enable"):
-            ok = False
-            for t in ast.walk(node):
-                if isinstance(t, ast.Try) and t.finalbody:
-                    has_yield = any(isinstance(y, ast.Yield) for b in t.body for y in ast.walk(b))
-                    restores = any(isinstance(c, ast.Call) and isinstance(c.func, ast.Attribute)
-                                   and c.func.attr in ("enable", "disable")
-                                   for b in t.finalbody for c in ast.walk(b))
-                    ok = ok or (has_yield and restores)
-            res.setdefault(node.name, ok)
-    return res
+    """-> (brackets, stray): brackets = {"temporarily_disable": bool, "temporarily_enable": bool} (the
+    statement after the `yield` is executed in a `finally` clause); stray = ["file:function:line"] for
+    every other place that switches tracing off/on without restoring it in a `finally` clause."""
+    brackets, stray = {}, []
+    for rel in SCAN:
+        path = repo / rel
+        if not path.exists():
+            continue
+        tree = ast.parse(path.read_text())
+        for node in ast.walk(tree):
+            if not isinstance(node, (ast.FunctionDef, ast.AsyncFunctionDef)):
+                continue
+            if node.name in ("temporarily_disable", "temporarily_enable"):
+                ok = False
+                for t in ast.walk(node):
+                    if isinstance(t, ast.Try) and t.finalbody:
+                        has_yield = any(isinstance(y, ast.Yield) for b in t.body for y in ast.walk(b))
+                        ok = ok or (has_yield and _has_switch(t.finalbody))
+                brackets.setdefault(node.name, ok)
+            if node.name in PRIMITIVES:
+                continue
+            own = [n for n in node.body]
+            for ln in unbracketed_switches(node):
+                stray.append(f"{rel.rsplit('/', 1)[-1]}:{node.name}:{ln}")
+    return brackets, sorted(set(stray))
 
 
 # ---------------------------------------------------------------------------------------------
@@ -54,14 +122,19 @@ def gen_ev(rng, depth, ids):
     if depth >= 3 or c < 0.38:
         return ["Line", rng.randrange(ids)]
     n = rng.choice([0, 0, 1, 2, 3])
-    if c < 0.78:
+    if c < 0.70:
         kind = rng.choice(PRED_KINDS)
         if kind == "excmatch":
             return ["Pred", rng.randrange(ids), kind, [], False]
         # the auxiliary in-presence predicate swallows a failing membership test: never "raises"
         raises = rng.random() < 0.45 and kind != "inp"
         return ["Pred", rng.randrange(ids), kind, [gen_ev(rng, depth + 1, ids) for _ in range(n)], raises]
-    if c < 0.90:
+    if c < 0.88:
+        kind = rng.choice(TRACK_KINDS)
+        if kind in ("generic", "memory"):
+            return ["Track", rng.randrange(ids), kind, [], False]
+        return ["Track", rng.randrange(ids), kind, [gen_ev(rng, depth + 1, ids) for _ in range(n)], rng.random() < 0.45]
+    if c < 0.94:
         return ["Dis", [gen_ev(rng, depth + 1, ids) for _ in range(n)], rng.random() < 0.4]
     return ["En", [gen_ev(rng, depth + 1, ids) for _ in range(n)], rng.random() < 0.4]
 
@@ -148,6 +221,41 @@ class Runner:
 
         return Operand()
 
+    def attr_operand(self, kind, inner, raises):
+        """object whose attribute `value` runs nested events and raises / returns when read"""
+        runner = self
+        state = {"calls": 0}
+
+        def fire():
+            state["calls"] += 1
+            if state["calls"] == 1:
+                runner.run_list(inner)
+            if raises:
+                raise Boom("attribute of the subject raises")
+            return 1
+
+        if kind == "prop":
+            class Prop:
+                @property
+                def value(self):
+                    return fire()
+            return Prop()
+        if kind == "getattr":
+            class Dyn:
+                def __getattr__(self, name):
+                    if name != "value":
+                        raise AttributeError(name)
+                    return fire()
+            return Dyn()
+
+        class Desc:
+            def __get__(self, obj, typ=None):
+                return fire()
+
+        class Holder:
+            value = Desc()
+        return Holder()
+
     def run_list(self, evs):
         for e in evs:
             self.run_ev(e)
@@ -171,6 +279,20 @@ class Runner:
                     tr.executed_exception_match(ValueError("x"), LookupError, pid)
             except Boom:
                 pass
+        elif e[0] == "Track":
+            import dis
+
+            _, tid, kind, inner, raises = e
+            try:
+                if kind == "generic":
+                    tr.track_generic("m", 0, 0, dis.opmap["NOP"], tid, 0)
+                elif kind == "memory":
+                    tr.track_memory_access("m", 0, 0, dis.opmap["LOAD_FAST"], tid, 0, "x", [1])
+                else:
+                    tr.track_attribute_access("m", 0, 0, dis.opmap["LOAD_ATTR"], tid, 0, "value",
+                                              self.attr_operand(kind, inner, raises))
+            except Boom:
+                pass
         elif e[0] in ("Dis", "En"):
             cm = tr.temporarily_disable() if e[0] == "Dis" else tr.temporarily_enable()
             try:
@@ -185,7 +307,8 @@ class Runner:
 
     def observe(self):
         t = self.tr.get_trace()
-        return (not self.tr.is_disabled(), list(t.covered_line_ids), sorted(t.executed_predicates.items()))
+        return (not self.tr.is_disabled(), list(t.covered_line_ids), sorted(t.executed_predicates.items()),
+                [i.lineno for i in t.executed_instructions])
 
     def run_history(self, h):
         """-> list of (model event, observation)"""
@@ -216,13 +339,15 @@ def c_ev(e):
         return f"(C05.Line {cZ(e[1])})"
     if e[0] == "Pred":
         return f"(C05.Pred {cZ(e[1])} {clist(c_ev(x) for x in e[3])} {cbool(e[4])})"
+    if e[0] == "Track":
+        return f"(C05.Track {cZ(e[1])} {clist(c_ev(x) for x in e[3])} {cbool(e[4])})"
     name = "DisableBlock" if e[0] == "Dis" else "EnableBlock"
     return f"(C05.{name} {clist(c_ev(x) for x in e[1])} {cbool(e[2])})"
 
 
 def c_obs(o):
-    en, ls, ps = o
-    return cpair(cbool(en), clist(cZ(x) for x in ls), clist(cpair(cZ(a), cZ(b)) for a, b in ps))
+    en, ls, ps, ins = o
+    return cpair(cbool(en), clist(cZ(x) for x in ls), clist(cpair(cZ(a), cZ(b)) for a, b in ps), clist(cZ(x) for x in ins))
 
 
 def c_case(fin, h, hist):
@@ -232,7 +357,7 @@ def c_case(fin, h, hist):
 def has_raising(e):
     if e[0] == "Line":
         return False
-    if e[0] == "Pred":
+    if e[0] in ("Pred", "Track"):
         return bool(e[4]) or any(has_raising(x) for x in e[3])
     if e[0] == "Stmt":
         return any(has_raising(x) for part in e[1:] for x in part)
@@ -241,8 +366,12 @@ def has_raising(e):
 
 # ---------------------------------------------------------------------------------------------
 # S: the real pipeline
-OPS = {"eq": "a == b", "ne": "a != b", "lt": "a < b", "ge": "a >= b", "in": "a in b", "nin": "a not in b", "bool": "a"}
-HANDLERS = ["Exception", "ValueError", "(ValueError, TypeError, AssertionError, OverflowError, ArithmeticError)"]
+OPS = {"eq": "a == b", "ne": "a != b", "lt": "a < b", "ge": "a >= b", "in": "a in b", "nin": "a not in b", "bool": "a",
+       # attribute reads: probed by track_attribute_access under checked coverage
+       "attr": "a.value", "dyn": "a.missing", "desc": "a.d"}
+ATTR_OPS = ["attr", "dyn", "desc"]
+HANDLERS = ["Exception", "ValueError",
+            "(ValueError, TypeError, AssertionError, OverflowError, ArithmeticError, AttributeError)"]
 
 
 def sut_source():
@@ -262,6 +391,15 @@ def sut_source():
                   "        return self.mode == 2", ""]
     lines += ["    def __bool__(self):", "        if self.mode == 1:", "            raise ValueError('bool')",
               "        return self.mode == 2", "", ""]
+    lines += ["class Lazy:", "    def __init__(self, mode):", "        self.mode = mode", "",
+              "    @property", "    def value(self):", "        if self.mode == 1:",
+              "            raise AttributeError('value is not available yet')", "        return self.mode == 2", "", "",
+              "class Dyn:", "    def __init__(self, mode):", "        self.mode = mode", "",
+              "    def __getattr__(self, name):", "        if self.mode == 1:", "            raise AttributeError(name)",
+              "        return self.mode == 2", "", "",
+              "class Desc:", "    def __get__(self, obj, typ=None):", "        if obj is not None and obj.mode == 1:",
+              "            raise ValueError('descriptor')", "        return obj is not None and obj.mode == 2", "", "",
+              "class Holder:", "    d = Desc()", "", "    def __init__(self, mode):", "        self.mode = mode", "", ""]
     handler_lines = {}
     for op, expr in OPS.items():
         lines += [f"def cmp_{op}(a, b):", f"    if {expr}:", "        return 1", "    return 2", "", ""]
@@ -279,19 +417,24 @@ def sut_source():
     return "\n".join(lines) + "\n", handler_lines
 
 
+ATTR_OPERANDS = ["Lazy(1)", "Lazy(1)", "Lazy(0)", "Lazy(2)", "Dyn(1)", "Dyn(1)", "Dyn(2)", "Holder(1)", "Holder(1)", "Holder(2)", "5", "None"]
 OPERANDS = ["Bad(1)", "Bad(1)", "Bad(1)", "Bad(0)", "Bad(2)", "float('nan')", "10**400", "2**53 + 1", "{1}", "{2}",
             "Decimal(1)", "1.5", "iter([1, 2, 3])", "[1, 2]", "float('inf')", "'ab'", "None", "5", "2.0**53"]
 SUFFIX = ["g(3, 'x')", "g(0, '')", "g(1, 'x')", "tail(2)", "tail(0)", "cmp_lt(1, 2)", "cmp_eq('a', 'b')",
-          "f_cmp_eq_0(1, 1, 2)", "deep_in(1, [1, 2])", "cmp_bool([])", "sub([1, 0], 1)", "sub({'a': 5}, 'a')"]
+          "f_cmp_eq_0(1, 1, 2)", "deep_in(1, [1, 2])", "cmp_bool([])", "sub([1, 0], 1)", "sub({'a': 5}, 'a')", "cmp_attr(Lazy(2), 0)", "deep_desc(Holder(0), 0)"]
 
 
-def gen_scenario(rng):
+def gen_scenario(rng, attr_bias=False):
     prefix = []
     for _ in range(rng.choice([1, 1, 2, 3])):
-        op = rng.choice(list(OPS))
-        fn = f"f_{rng.choice(['cmp', 'deep'])}_{op}_{rng.randrange(len(HANDLERS))}"
+        op = rng.choice(ATTR_OPS) if attr_bias and rng.random() < 0.7 else rng.choice(list(OPS))
+        # handler 1 (ValueError only) does not catch the AttributeError of attribute reads
+        k = rng.choice([0, 2]) if op in ("attr", "dyn") and rng.random() < 0.85 else rng.randrange(len(HANDLERS))
+        fn = f"f_{rng.choice(['cmp', 'deep'])}_{op}_{k}"
         a, b = rng.choice(OPERANDS), rng.choice(OPERANDS)
-        if rng.random() < 0.5:
+        if op in ATTR_OPS:
+            a = rng.choice(ATTR_OPERANDS)
+        elif rng.random() < 0.5:
             a = "Bad(1)"
         prefix.append((fn, f"{fn}({a}, {b}, {rng.choice([0, 1, 2, 3])})"))
     if rng.random() < 0.3:
@@ -301,20 +444,22 @@ def gen_scenario(rng):
 
 
 class Pipeline:
-    def __init__(self, ctx):
+    def __init__(self, ctx, checked=False):
         import pynguin.configuration as config
         from pynguin.instrumentation.machinery import install_import_hook
         from pynguin.instrumentation.tracer import SubjectProperties
         from pynguin.testcase.execution import TestCaseExecutor
 
+        self.checked = checked
         self.src, self.handler_lines = sut_source()
         d = ctx.mkscratch()
-        self.modname = f"c05sut_{abs(hash(str(d))) % 10**6}"
+        self.modname = f"c05sut_{abs(hash(str(d))) % 10**6}" + ("_chk" if checked else "")
         (d / f"{self.modname}.py").write_text(self.src)
         sys.path.insert(0, str(d))
         self._path = str(d)
         config.configuration.module_name = self.modname
-        config.configuration.statistics_output.coverage_metrics = [config.CoverageMetric.BRANCH, config.CoverageMetric.LINE]
+        config.configuration.statistics_output.coverage_metrics = [config.CoverageMetric.BRANCH, config.CoverageMetric.LINE] + (
+            [config.CoverageMetric.CHECKED] if checked else [])
         self.sp = SubjectProperties()
         self.hook = install_import_hook(self.modname, self.sp)
         self.hook.__enter__()
@@ -417,6 +562,77 @@ def shrink_scenario(pl, sc, sig):
     return cur
 
 
+def run_scenarios(pl, scenarios, emit=None):
+    """-> {"done", "n_fail", "counts", "failures": [(sig, msg, shrunk scenario)]}"""
+    res = {"done": 0, "n_fail": 0, "counts": {}, "failures": []}
+    reported = set()
+    for sc in scenarios:
+        r = check_scenario(pl, sc)
+        key = "skip" if r == "skip" else "ok" if r is None else r[0]
+        res["counts"][key] = res["counts"].get(key, 0) + 1
+        if isinstance(r, tuple):
+            res["n_fail"] += 1
+            if r[0] not in reported:
+                reported.add(r[0])
+                small = shrink_scenario(pl, sc, r[0])
+                r2 = check_scenario(pl, small)
+                r2 = r2 if isinstance(r2, tuple) else r
+                res["failures"].append((r2[0] + (":checked" if pl.checked else ""), r2[1], small))
+        res["done"] += 1
+        if emit:
+            emit(res)
+    return res
+
+
+def run_forked(ctx, scenarios):
+    """Run the scenarios under BRANCH+LINE+CHECKED instrumentation in a forked child."""
+    import multiprocessing as mp
+    import os
+
+    ctx.mkscratch()
+    mpc = mp.get_context("fork")
+    recv, send = mpc.Pipe(duplex=False)
+
+    def child():
+        try:
+            pl = Pipeline(ctx, checked=True)
+            run_scenarios(pl, scenarios, emit=lambda r: send.send(json.dumps(r)))
+            send.send("END")
+        except BaseException as e:  # noqa: BLE001
+            import traceback
+
+            send.send(json.dumps({"error": f"{type(e).__name__}: {e}", "tb": traceback.format_exc()[-1500:]}))
+        finally:
+            os._exit(0)
+
+    proc = mpc.Process(target=child)
+    proc.start()
+    send.close()
+    last = {"done": 0, "n_fail": 0, "counts": {}, "failures": []}
+    ended = False
+    try:
+        while True:
+            if not recv.poll(900):
+                break
+            msg = recv.recv()
+            if msg == "END":
+                ended = True
+                break
+            d = json.loads(msg)
+            if "error" in d:
+                last["stderr"] = d["error"] + "\n" + d["tb"]
+                break
+            last = d
+    except EOFError:
+        pass
+    proc.join(30)
+    if proc.is_alive():
+        proc.kill()
+    last["exit"] = "ok" if ended else f"died (exitcode {proc.exitcode})"
+    last["failures"] = [tuple(f) for f in last["failures"]]
+    return last
+
+
 # ---------------------------------------------------------------------------------------------
 def run(ctx: vlib.Ctx):
     vlib.setup_impl_path()
@@ -425,43 +641,54 @@ def run(ctx: vlib.Ctx):
     if not ctx.quick:
         ctx.coqchk()
     # K1
-    br = read_brackets(ctx.repo)
+    br, stray = read_brackets(ctx.repo)
     fin = bool(br) and all(br.values()) and len(br) == 2
-    ctx.leg("K1", brackets=br, finally_premise=fin)
+    ctx.leg("K1", brackets=br, finally_premise=fin, switches_outside_finally=stray)
     # S first: a broken premise must come with a failing input if there is one
     corpus = json.loads((vlib.VERIF / "corpus" / "C05.json").read_text())
+    n_gen = 40 if ctx.quick else 500
+    scenarios = [dict(c) for c in corpus["scenarios"]] + [gen_scenario(ctx.rng) for _ in range(n_gen)]
+    chk_scenarios = [dict(c) for c in corpus["checked_scenarios"]] + [
+        gen_scenario(ctx.rng, attr_bias=True) for _ in range(30 if ctx.quick else 300)]
+    # checked coverage (track_attribute_access & co.) in a forked child: an interpreter crash under
+    # that instrumentation must not take the check down
+    chk = run_forked(ctx, chk_scenarios)
     pl = Pipeline(ctx)
-    n_fail = n_skip = 0
     try:
-        scenarios = [dict(c) for c in corpus["scenarios"]]
-        for _ in range(40 if ctx.quick else 500):
-            scenarios.append(gen_scenario(ctx.rng))
-        reported = set()
-        for sc in scenarios:
-            r = check_scenario(pl, sc)
-            ctx.case_seen(("scenario", sc["prefix"], sc["suffix"]))
-            ctx.count("scenario:" + ("skip" if r == "skip" else "ok" if r is None else r[0]))
-            for c in sc["prefix"]:
-                ctx.count("prefix-op:" + (c.split("_")[2] if c.startswith("f_") else c.split("(")[0]))
-            if r == "skip":
-                n_skip += 1
-            elif r is not None:
-                n_fail += 1
-                if r[0] not in reported:
-                    reported.add(r[0])
-                    small = shrink_scenario(pl, sc, r[0])
-                    r2 = check_scenario(pl, small)
-                    r2 = r2 if isinstance(r2, tuple) else r
-                    ctx.fail(r2[0], r2[1], {"scenario": small, "module_source": "harness/props/C05.py:sut_source()"})
-        ctx.sample({"scenario": scenarios[len(corpus["scenarios"])]})
+        plain = run_scenarios(pl, scenarios)
     finally:
         pl.close()
-    ctx.leg("S", scenarios=len(scenarios), failures=n_fail, skipped_uncaught_or_timeout=n_skip)
+    for name, res, scs in (("S", plain, scenarios), ("S-checked", chk, chk_scenarios)):
+        for sc in scs:
+            ctx.case_seen((name, sc["prefix"], sc["suffix"]))
+            for c in sc["prefix"]:
+                ctx.count(f"{name}:prefix-op:" + (c.split("_")[2] if c.startswith("f_") else c.split("(")[0]))
+        for k, v in res["counts"].items():
+            ctx.count(f"{name}:scenario:{k}", v)
+        for sig, msg, small in res["failures"]:
+            ctx.fail(sig, msg, {"scenario": small, "checked_coverage": name == "S-checked",
+                                "module_source": "harness/props/C05.py:sut_source()"})
+        ctx.leg(name, scenarios=len(scs), completed=res["done"], failures=res["n_fail"],
+                skipped_uncaught_or_timeout=res["counts"].get("skip", 0), child_exit=res.get("exit"))
+    ctx.sample({"scenario": scenarios[len(corpus["scenarios"])]})
+    ctx.sample({"checked_scenario": chk_scenarios[len(corpus["checked_scenarios"])]})
+    if chk["done"] < len(corpus["checked_scenarios"]):
+        ctx.broken("oracle:checked-coverage-run-died",
+                   "the forked run of the subject under checked-coverage instrumentation did not get through the corpus "
+                   "scenarios; track_attribute_access is not exercised on the pipeline",
+                   {"exit": chk.get("exit"), "completed": chk["done"], "stderr": chk.get("stderr", "")[-1500:]})
+    elif chk["done"] < len(chk_scenarios):
+        ctx.notes.append(f"checked-coverage child ended after {chk['done']} of {len(chk_scenarios)} scenarios (exit {chk.get('exit')})")
     if not fin:
         ctx.broken("premise:brackets-restore-in-finally",
                    "temporarily_disable / temporarily_enable do not restore the switch in a finally clause: the "
                    "theorems (stated for run true) do not apply to this code; C05_without_finally_refuted does",
                    {"brackets": br})
+    if stray:
+        ctx.broken("premise:switch-outside-finally",
+                   "tracing is switched off/on outside the brackets without restoring it in a finally clause (the model has "
+                   "no such event: callbacks other than the predicate callbacks never touch the switch)",
+                   {"places": stray})
     # K2
     hists = [dict(h) for h in corpus["histories"]]
     for _ in range(500 if ctx.quick else 8000):
@@ -489,9 +716,11 @@ def run(ctx: vlib.Ctx):
     ctx.sample({"history": hists[len(corpus["histories"])], "observed": [list(map(repr, o)) for _, o in recs[len(corpus["histories"])][1]]})
     ctx.cov["rule"] = ("K2: random event trees (depth <= 3; line visits, bool/==/in/exception-match predicate callbacks whose "
                        "operand runs nested events and raises with p = 0.45, nested temporarily_disable/enable blocks that "
-                       "raise with p = 0.4, statements through _before/_after_statement_execution with observers), initially "
+                       "raise with p = 0.4, track_attribute_access on properties/__getattr__/descriptors that run nested events and raise, "
+                       "track_generic/track_memory_access, statements through _before/_after_statement_execution with observers), initially "
                        "enabled or disabled; S: test cases of 1-3 calls whose traced comparison raises inside the subject "
-                       "(user operators, NaN, huge ints, iterators) followed by 1-3 further calls; non-trivial = at least "
+                       "(user operators, NaN, huge ints, iterators, raising properties/__getattr__/descriptors) followed by 1-3 further "
+                       "calls, under BRANCH+LINE in process and under BRANCH+LINE+CHECKED in a forked child; non-trivial = at least "
                        "one event / one prefix call; distinct = distinct trees / scenarios")
     bad = ctx.run_cases("C05_cases", "From Verif Require Import Models.C05.", "C05.case", "C05.check_case", cases)
     if bad:
@@ -508,7 +737,9 @@ def run(ctx: vlib.Ctx):
         "test case); the thread check (TracingAbortedException) that kills timed-out threads is outside the model",
         "what the subject does is an arbitrary tree of events; an exception raised in traced code and caught by the "
         "subject is a callback/block flagged `raises` followed by the next events",
-        "callbacks without a bracket (track_line_visit, track_generic, ...) never change the switch",
+        "callbacks without a bracket (track_line_visit, track_generic, track_memory_access, track_attribute_access, ...) "
+        "never change the switch; checked on the source (no enable/disable/.enabled assignment outside a finally-"
+        "protected bracket in tracer.py, execution.py, execution_observers.py) and by K2/S on every run",
     ]
     ctx.cov["trusted_base"] += [
         "hand-written model Models/C05.v tied by replaying event trees on the real tracer/executor in Coq (this run); "
@@ -521,7 +752,7 @@ def replay(ctx, path):
     vlib.setup_impl_path()
     d = json.loads(open(path).read())["replay"]
     if "scenario" in d:
-        pl = Pipeline(ctx)
+        pl = Pipeline(ctx, checked=bool(d.get("checked_coverage")))
         try:
             sc = d["scenario"]
             print("scenario:", sc)
@@ -535,7 +766,7 @@ def replay(ctx, path):
         hist = Runner().run_history(h)
         for e, o in hist:
             print(e, "->", o)
-        br = read_brackets(ctx.repo)
+        br, _ = read_brackets(ctx.repo)
         fin = bool(br) and all(br.values())
         print("model agrees:", ctx.coq_eval("From Verif Require Import Models.C05.", "C05.check_case " + c_case(fin, h, hist)))
     return 0
